@@ -73,6 +73,8 @@ PROPS["C03"] = {
          "checks": {"quick": 8000, "thorough": 100000}, "shards": {"quick": 2, "thorough": 16}},
         {"name": "C03CorpusEnum", "pkg": CC, "test": "TestVerifC03CorpusEnum", "kind": "enum",
          "shards": {"quick": 8, "thorough": 16}},
+        # the permutations derived for the grpc-go peers are judged by the expectation (and allowed codes) of their base case
+        {"name": "C03Variants", "pkg": CC, "test": "TestVerifC03Variants", "kind": "enum"},
     ],
 }
 
